@@ -138,6 +138,7 @@ type HarnessResult struct {
 	Samples    []PathSummary
 	Witnesses  []PathSummary // paths with model witnesses (for translator validation)
 	InitNotes  map[string]bool
+	Panics     map[string]int
 	MaxPaths   bool
 }
 
@@ -264,6 +265,12 @@ func explore(P *Program, fn *ssa.Function, opts ExploreOpts) *HarnessResult {
 			}
 			for _, c := range e.covers {
 				res.Covers[c]++
+			}
+			for _, p := range e.panicsCaught {
+				if res.Panics == nil {
+					res.Panics = map[string]int{}
+				}
+				res.Panics[p]++
 			}
 			pid := fmt.Sprintf("p%d", seq)
 			for _, a := range e.asserts {
